@@ -4,10 +4,16 @@ import (
 	"bytes"
 	"encoding/json"
 	"fmt"
+	"io"
+	"net"
 	"net/http"
 	"net/http/httptest"
+	"os"
+	"os/exec"
+	"path/filepath"
 	"strings"
 	"sync"
+	"time"
 
 	. "rdmverif/engine"
 	"rdmverif/svc"
@@ -22,10 +28,10 @@ func init() {
 		Rule: "E2: server = the gin engine built by the service's own main() (re-packaged), driven through ServeHTTP in a supervised worker process (a fatal error kills the worker and is attributed to the announced request). " +
 			"Alphabet: malformed bodies (empty, null, [], scalars, every prefix of a valid body cut at a token boundary, every top-level field mistyped, 1e999, 20000-deep nesting), " +
 			"every documented constraint violated one at a time on a valid base per method (invalid corpus, ~70 rules), valid corpus Σ. Bound: every single request; every ordered pair (history depth 2; thorough: " +
-			"depth 3 over class representatives) with a liveness probe after each step (GET /api/preferenceFunctions lists the 7 methods; a fixed valid decide returns its baseline bytes). " +
+			"depth 3 over class representatives, and the whole alphabet as one session against the REAL service binary built from httpClient/ on a loop-back port, verdicts cross-checked with the in-process engine) with a liveness probe after each step (GET /api/preferenceFunctions lists the 7 methods; a fixed valid decide returns its baseline bytes). " +
 			"State = (alive, fingerprint of package-level state, probe bytes); expected reachable set: one state. Oracle: valid => 200 with result and biases; otherwise 400 with error and the echoed request; " +
 			"a constraint violation is never answered 200; unknown method/bias errors list the available names. states/transitions/traces as counted.",
-		Assume:   []string{"HTTP transport below ServeHTTP (net/http connection handling) is not part of the explored system in the quick tier"},
+		Assume:   []string{"HTTP transport below ServeHTTP (net/http connection handling) is not part of the explored system in the quick tier; the thorough tier adds one session against the real binary"},
 		Run:      c20Run,
 		Check:    c20Check,
 		Finalize: c20Finalize,
@@ -289,6 +295,9 @@ func c20Run(s *Shard) {
 			sampled = true
 		}
 	}
+	if !quick(s) && s.Idx == 0 {
+		c20RealBinary(s, alpha)
+	}
 	if !quick(s) {
 		// depth 3 over one representative per class/rule family
 		var reps []c20Req
@@ -322,6 +331,112 @@ func c20Run(s *Shard) {
 			}
 		}
 	}
+}
+
+// ---- thorough tier: the real service binary on a loop-back port ------------------------------------------------
+
+type realServer struct {
+	cmd  *exec.Cmd
+	base string
+	done chan error
+}
+
+func startRealServer() (*realServer, error) {
+	bin := filepath.Join(os.Getenv("VERIF_BUILD_DIR"), "rdmserver")
+	if _, err := os.Stat(bin); err != nil {
+		return nil, err
+	}
+	l, err := net.Listen("tcp", "127.0.0.1:0")
+	if err != nil {
+		return nil, err
+	}
+	port := l.Addr().(*net.TCPAddr).Port
+	l.Close()
+	cmd := exec.Command(bin)
+	cmd.Env = append(os.Environ(), fmt.Sprintf("PORT=%d", port), "GIN_MODE=release")
+	cmd.Dir = os.TempDir()
+	cmd.Stdout, cmd.Stderr = nil, nil
+	if err := cmd.Start(); err != nil {
+		return nil, err
+	}
+	rs := &realServer{cmd: cmd, base: fmt.Sprintf("http://127.0.0.1:%d", port), done: make(chan error, 1)}
+	go func() { rs.done <- cmd.Wait() }()
+	for i := 0; i < 200; i++ {
+		if resp, err := http.Get(rs.base + "/api/preferenceFunctions"); err == nil {
+			resp.Body.Close()
+			return rs, nil
+		}
+		select {
+		case <-rs.done:
+			return nil, fmt.Errorf("service binary exited during start-up")
+		case <-time.After(50 * time.Millisecond):
+		}
+	}
+	cmd.Process.Kill()
+	return nil, fmt.Errorf("service binary did not start answering")
+}
+
+func (rs *realServer) alive() bool {
+	select {
+	case <-rs.done:
+		return false
+	default:
+		return true
+	}
+}
+
+func (rs *realServer) post(body string) (httpResp, error) {
+	cl := &http.Client{Timeout: 30 * time.Second}
+	resp, err := cl.Post(rs.base+"/api/decide", "application/json", strings.NewReader(body))
+	if err != nil {
+		return httpResp{}, err
+	}
+	defer resp.Body.Close()
+	b, _ := io.ReadAll(resp.Body)
+	return httpResp{resp.StatusCode, b}, nil
+}
+
+// c20RealBinary sends every request of the alphabet once (history = the whole sequence) to ONE real server process and
+// probes it after each; a dead process or a changed probe is attributed to the request just sent. The verdict of every
+// response must equal the in-process engine's verdict for the same body (conformance of the two drivers).
+func c20RealBinary(s *Shard, alpha []c20Req) {
+	rs, err := startRealServer()
+	c0 := &Case{Prop: "C20", Kind: "real-binary", Params: M{"history": []c20Req{}}}
+	if err != nil {
+		s.Notes = append(s.Notes, "real-binary driver not run: "+err.Error())
+		s.Exhaustive = false
+		return
+	}
+	defer func() {
+		rs.cmd.Process.Kill()
+	}()
+	probe, perr := rs.post(string(probeBody))
+	if perr != nil || probe.Code != 200 {
+		s.Report([]Violation{viol(c0, "C20/real-binary-probe", "fresh service process does not answer the probe: %v %d", perr, probe.Code)})
+		return
+	}
+	for i, a := range alpha {
+		c := &Case{Prop: "C20", Kind: "real-binary", Params: M{"history": []c20Req{a}, "position_in_session": i}}
+		s.Evals++
+		s.Count("transitions", 1)
+		s.Count("real_binary_requests", 1)
+		resp, err := rs.post(a.Body)
+		if err != nil || !rs.alive() {
+			s.Report([]Violation{viol(c, "C20/real-binary-died", "the service process stopped answering / exited on request %s: %v", a.Name, err)})
+			return
+		}
+		s.Report(c20Verdict(c, a, resp))
+		mem := post([]byte(a.Body))
+		if mem.Code != resp.Code {
+			s.Report([]Violation{viol(c, "C20/drivers-disagree", "request %s: the real binary answers %d, the in-process engine %d", a.Name, resp.Code, mem.Code)})
+		}
+		p, perr := rs.post(string(probeBody))
+		if perr != nil || p.Code != 200 || !bytes.Equal(p.Body, probe.Body) {
+			s.Report([]Violation{viol(c, "C20/real-binary-probe", "after %s the real service answers the fixed valid request differently (%v, %d)", a.Name, perr, p.Code)})
+			return
+		}
+	}
+	s.Count("traces_validated", int64(len(alpha)))
 }
 
 func c20Finalize(m *Merged) {
